@@ -1420,6 +1420,8 @@ class SX:
             return bool(v.s)
         if isinstance(v, Tv):
             return bool(v.items)
+        if isinstance(v, Dv):
+            return bool(v.items)
         if isinstance(v, (Q,)):
             return True
         if isinstance(v, Ov):
@@ -1506,6 +1508,8 @@ class SX:
             return [(s_, Sv(text)) for s_, text in cur]
         if isinstance(n, ast.JoinedStr):
             return [(st, Unk('<f-string>'))]
+        if isinstance(n, ast.Dict) and not n.keys and self.eval_comprehensions:
+            return [(st, Dv({}))]          # an empty mapping the function fills key by key (a counting table)
         if isinstance(n, ast.Dict) and n.keys and all(isinstance(k, ast.Constant) and isinstance(k.value, str) for k in n.keys) and (
                 self.eval_comprehensions or not any(isinstance(v, (ast.List, ast.Dict, ast.Set, ast.ListComp, ast.DictComp, ast.SetComp,
                                                                     ast.Lambda, ast.Constant)) for v in n.values)):
@@ -3068,6 +3072,8 @@ class SX:
                 return [(st, recv)]
         if isinstance(recv, (N,)) and attr == 'take':
             return [(st, recv)]
+        if self.eval_comprehensions and isinstance(recv, Dv) and attr == 'get' and len(args) in (1, 2) and isinstance(args[0], Sv) and not kwargs:
+            return [(st, recv.items[args[0].s] if args[0].s in recv.items else (args[1] if len(args) == 2 else NoneV()))]
         if self.eval_comprehensions and isinstance(recv, Dv) and attr in ('items', 'values', 'keys') and not args:
             if attr == 'items':
                 return [(st, Tv([Tv([Sv(k), v], 'tuple') for k, v in recv.items.items()]))]
